@@ -20,7 +20,7 @@ pub fn run_c01(tier: Tier, replay_path: Option<String>) -> i32 {
     );
     let alphabet = s(&["put:t", "put:T", "put:b", "put:e", "put:n", "upd:0:new", "upd:0:meta", "del:0", "commit", "reopen", "abandon"]);
     let core = s(&["put:t", "put:T", "put:e", "upd:0:new", "del:0", "commit", "abandon"]);
-    let mk = |label: &str, alphabet: &Vec<String>, depth: usize, prefix: &[&str], instant: bool| HistPlan { label: label.into(), prop: "C01", alphabet: alphabet.clone(), max_depth: depth, prefix: s(prefix), instant, worker_kind: "hist", extra: json!({}), keep: None };
+    let mk = |label: &str, alphabet: &Vec<String>, depth: usize, prefix: &[&str], instant: bool| HistPlan { label: label.into(), prop: "C01", alphabet: alphabet.clone(), max_depth: depth, prefix: s(prefix), instant, worker_kind: "hist", extra: json!({}), keep: None, exe: None, timeout_s: 120 };
     let plans = match tier {
         Tier::Quick => vec![
             mk("fresh-core", &core, 3, &[], false),
@@ -48,6 +48,57 @@ pub fn run_c01(tier: Tier, replay_path: Option<String>) -> i32 {
         summary.push(json!({"plan": p.label, "depth": p.max_depth, "cases": st.cases, "redundant": st.redundant, "violating": st.violating}));
     }
     report.set("plans", json!(summary));
+    // (B) WAL-geometry sweeps
+    let deltas: Vec<i64> = match tier {
+        Tier::Quick => vec![-64, -49, -48, -47, -1, 0, 1, 47, 48, 49, 112],
+        Tier::Thorough => (-64..=112).collect(),
+    };
+    let posts: Vec<&str> = tier.pick(vec!["commit", "put-abandon"], vec!["commit", "put-abandon", "drop", "commit-put-commit"]);
+    let mut cases = Vec::new();
+    for grown in [false, true] {
+        if grown && tier == Tier::Quick {
+            continue;
+        }
+        for pending in [false, true] {
+            for post in &posts {
+                for &delta in &deltas {
+                    cases.push(json!({"prop": "C01", "worker": "hist", "sweep": true, "grown": grown, "pending": pending, "post": post, "delta": delta}));
+                }
+                for big in tier.pick(vec![66_000i64, 75_000, 131_000], vec![60_000, 66_000, 70_000, 75_000, 100_000, 127_000, 131_000, 200_000]) {
+                    cases.push(json!({"prop": "C01", "worker": "hist", "sweep": true, "grown": grown, "pending": pending, "post": post, "big": big}));
+                }
+            }
+        }
+    }
+    let ncases = cases.len();
+    let cfg = PoolCfg { kind: "hist".into(), timeout: std::time::Duration::from_secs(300), workers: ncpu().min(8), envs: vec![] };
+    let mut results = Vec::new();
+    run_pool(&cfg, cases, |i, c, o| results.push((i, c.clone(), o)));
+    results.sort_by_key(|r| r.0);
+    for (i, c, o) in results {
+        let key = format!("sweep|grown={}|pending={}|post={}|delta={}|big={}", c["grown"], c["pending"], c["post"].as_str().unwrap_or(""), c["delta"], c["big"]);
+        report.eval(Some(h64(&key)));
+        match o {
+            WorkerOutcome::Ok(v) => {
+                if let Some(e) = v.get("engine_error") {
+                    die(&format!("sweep worker engine error: {e}"));
+                }
+                for o in v["outcomes"].as_array().cloned().unwrap_or_default() {
+                    report.outcome(o.as_str().unwrap_or(""));
+                }
+                let mut seen = std::collections::HashSet::new();
+                for vi in v["viol"].as_array().cloned().unwrap_or_default() {
+                    let sig = signature_of(&vi);
+                    if seen.insert(sig.clone()) {
+                        report.violation(&sig, &key, &format!("[wal-geometry sweep] {key} ({}): step {} -> {}", v["note"].as_str().unwrap_or(""), vi["step"], vi["detail"].as_str().unwrap_or("")), c.clone());
+                    }
+                }
+                report.sample_spread(1000 + i as u64, || json!({"sweep": c, "geometry": v["note"]}));
+            }
+            other => report.violation("process-aborted", &key, &format!("{key}: {other:?}"), c.clone()),
+        }
+    }
+    report.set("wal_geometry_sweep_cases", json!(ncases));
     report.finish()
 }
 
@@ -66,7 +117,7 @@ pub fn run_c06(tier: Tier, replay_path: Option<String>) -> i32 {
         "every op sequence up to the depth bound over {put t, put T(chunked), put e, upd(0,new), upd(0,meta), del(0), commit, reopen, abandon, vacuum, doctor} from a fresh file and after a commit; invariants: next_frame_id() before each put/update equals the id the reference assigns, ids are 0..n-1 in put order with chunk frames directly after their parent, and (uri, role, content digest, timestamp) of an id never change once observed; non-trivial = history not redundant and >= 1 frame; distinct = distinct histories",
     );
     let alphabet = s(&["put:t", "put:T", "put:e", "upd:0:new", "upd:0:meta", "del:0", "commit", "reopen", "abandon", "vacuum", "doctor"]);
-    let mk = |label: &str, alphabet: &Vec<String>, depth: usize, prefix: &[&str]| HistPlan { label: label.into(), prop: "C06", alphabet: alphabet.clone(), max_depth: depth, prefix: s(prefix), instant: false, worker_kind: "hist", extra: json!({}), keep: Some(c06_owns) };
+    let mk = |label: &str, alphabet: &Vec<String>, depth: usize, prefix: &[&str]| HistPlan { label: label.into(), prop: "C06", alphabet: alphabet.clone(), max_depth: depth, prefix: s(prefix), instant: false, worker_kind: "hist", extra: json!({}), keep: Some(c06_owns), exe: None, timeout_s: 120 };
     let plans = match tier {
         Tier::Quick => vec![mk("fresh", &alphabet, 2, &[]), mk("after-commit", &alphabet, 2, &["put:t", "put:T", "commit"])],
         Tier::Thorough => vec![mk("fresh", &alphabet, 4, &[]), mk("after-commit", &alphabet, 3, &["put:t", "put:T", "commit"]), mk("after-update", &alphabet, 3, &["put:t", "put:e", "commit", "upd:0:new", "del:0", "commit"])],
@@ -95,7 +146,7 @@ pub fn run_c19(tier: Tier, replay_path: Option<String>) -> i32 {
         "every op sequence up to the depth bound over the C01 alphabet plus failing calls {update/delete of a missing id, embedding of the wrong dimension, stale ticket, put over a zero-headroom capacity ticket} plus vacuum and doctor, with a directory listing after every call (must be exactly the one .mv2); plus all 8 forbidden sidecar names x {create, open, open_read_only, doctor} (must return AuxiliaryFileDetected and leave directory and file unchanged); non-trivial = history not redundant and >= 1 frame, or a sidecar case; distinct = distinct histories",
     );
     let alphabet = s(&["put:t", "put:T", "put:e", "upd:0:new", "del:0", "commit", "reopen", "abandon", "vacuum", "doctor", "bad:upd", "bad:del", "bad:dim", "bad:tick", "tick:+:0", "putn:10"]);
-    let mk = |label: &str, alphabet: &Vec<String>, depth: usize, prefix: &[&str]| HistPlan { label: label.into(), prop: "C19", alphabet: alphabet.clone(), max_depth: depth, prefix: s(prefix), instant: false, worker_kind: "hist", extra: json!({}), keep: Some(c19_owns) };
+    let mk = |label: &str, alphabet: &Vec<String>, depth: usize, prefix: &[&str]| HistPlan { label: label.into(), prop: "C19", alphabet: alphabet.clone(), max_depth: depth, prefix: s(prefix), instant: false, worker_kind: "hist", extra: json!({}), keep: Some(c19_owns), exe: None, timeout_s: 120 };
     let plans = match tier {
         Tier::Quick => vec![mk("fresh", &alphabet, 2, &[]), mk("after-commit", &alphabet, 1, &["put:t", "put:e", "commit"])],
         Tier::Thorough => vec![mk("fresh", &alphabet, 3, &[]), mk("after-commit", &alphabet, 3, &["put:t", "put:e", "commit"]), mk("instant", &s(&["put:t", "put:T", "commit", "abandon", "bad:upd", "doctor"]), 3, &[])],
@@ -156,7 +207,7 @@ pub fn run_c24(tier: Tier, replay_path: Option<String>) -> i32 {
     for c in heads {
         for (label, prefix) in [("fresh", vec![format!("tick:+:{c}")]), ("after-commit", vec!["putn:40".to_string(), "commit".to_string(), format!("tick:+:{c}")])] {
             let depth = if label == "after-commit" && tier == Tier::Quick { 2 } else { depth };
-            let plan = HistPlan { label: format!("{label}-headroom-{c}"), prop: "C24", alphabet: alphabet.clone(), max_depth: depth, prefix, instant: false, worker_kind: "hist", extra: json!({}), keep: Some(c24_owns) };
+            let plan = HistPlan { label: format!("{label}-headroom-{c}"), prop: "C24", alphabet: alphabet.clone(), max_depth: depth, prefix, instant: false, worker_kind: "hist", extra: json!({}), keep: Some(c24_owns), exe: None, timeout_s: 120 };
             let st = explore(&mut report, &plan);
             summary.push(json!({"plan": plan.label, "depth": depth, "cases": st.cases, "violating": st.violating}));
         }
@@ -180,10 +231,85 @@ pub fn run_c26(tier: Tier, replay_path: Option<String>) -> i32 {
         "every op sequence up to the depth bound over {put s (a sentence the rules engine extracts a card from), put S (same, instant index + enable_embedding: fills the enrichment queue), put T (chunked), put t, del(0), upd(0,new), commit, reopen, abandon}; after every commit/open and at the end: every card names an existing frame whose uri is the card's source uri and whose text contains the card value, every enrichment record and every enrichment-queue entry names the frame of the put that created it; commits in between make WAL sequence numbers and frame ids diverge; non-trivial = history with >= 1 card-producing put; distinct = distinct histories",
     );
     let alphabet = s(&["put:s", "put:S", "put:T", "put:t", "del:0", "upd:0:new", "commit", "reopen", "abandon"]);
-    let mk = |label: &str, depth: usize, prefix: &[&str]| HistPlan { label: label.into(), prop: "C26", alphabet: alphabet.clone(), max_depth: depth, prefix: s(prefix), instant: false, worker_kind: "hist", extra: json!({}), keep: Some(c26_owns) };
+    let mk = |label: &str, depth: usize, prefix: &[&str]| HistPlan { label: label.into(), prop: "C26", alphabet: alphabet.clone(), max_depth: depth, prefix: s(prefix), instant: false, worker_kind: "hist", extra: json!({}), keep: Some(c26_owns), exe: None, timeout_s: 120 };
     let plans = match tier {
         Tier::Quick => vec![mk("fresh", 2, &[]), mk("after-commit", 2, &["put:s", "commit"]), mk("after-chunked", 1, &["put:T", "put:s", "commit", "del:0", "commit"])],
         Tier::Thorough => vec![mk("fresh", 4, &[]), mk("after-commit", 3, &["put:s", "commit"]), mk("after-chunked", 3, &["put:T", "put:s", "commit", "del:0", "commit"])],
+    };
+    let mut summary = Vec::new();
+    for p in &plans {
+        let st = explore(&mut report, p);
+        summary.push(json!({"plan": p.label, "depth": p.max_depth, "cases": st.cases, "redundant": st.redundant, "violating": st.violating}));
+    }
+    report.set("plans", json!(summary));
+    report.finish()
+}
+
+fn c14_owns(sig: &str) -> bool {
+    sig.starts_with("vec-") || sig.starts_with("panic:search-vec") || sig.starts_with("panic:frame-embedding")
+}
+
+pub fn run_c14(tier: Tier, replay_path: Option<String>) -> i32 {
+    if let Some(p) = replay_path {
+        return replay(&p);
+    }
+    let mut report = Report::new(
+        "C14",
+        tier,
+        "exploration",
+        "every op sequence up to the depth bound over {put with embedding, chunked put with chunk embeddings, put without embedding, metadata-only update (embedding carried), update with a new embedding, update with a new payload, delete, commit, close+open, leaked handle, vacuum, doctor, doctor(rebuild_vec_index)}, from a fresh file and from a state with committed vectors; after every commit/open/vacuum/doctor: the set of frames returned by search_vec(q, m+5) equals the reference's active embedded frames, frame_embedding(id) equals the embedding given (or carried over), stats.vector_count agrees; non-trivial = history with >= 1 embedded frame; distinct = distinct histories",
+    );
+    let alphabet = s(&["put:e", "put:E", "put:t", "upd:0:meta", "upd:0:emb", "upd:0:new", "del:0", "commit", "reopen", "abandon", "vacuum", "doctor", "doctor:vec"]);
+    let mk = |label: &str, alphabet: &Vec<String>, depth: usize, prefix: &[&str]| HistPlan { label: label.into(), prop: "C14", alphabet: alphabet.clone(), max_depth: depth, prefix: s(prefix), instant: false, worker_kind: "hist", extra: json!({}), keep: Some(c14_owns), exe: None, timeout_s: 120 };
+    let plans = match tier {
+        Tier::Quick => vec![mk("fresh", &s(&["put:e", "put:E", "commit", "abandon", "doctor:vec"]), 2, &[]), mk("after-commit", &alphabet, 2, &["put:e", "put:e", "put:t", "commit"])],
+        Tier::Thorough => vec![mk("fresh", &alphabet, 3, &[]), mk("after-commit", &alphabet, 3, &["put:e", "put:e", "put:t", "commit"]), mk("after-chunked", &alphabet, 2, &["put:E", "put:e", "commit", "del:1", "commit"])],
+    };
+    let mut plans = plans;
+    // index sizes on both sides of the representation switch (1000 vectors), default build and
+    // the hnsw_bench build of memvid-core
+    let hnsw = std::env::var("MC_BIN_HNSW").unwrap_or_default();
+    if hnsw.is_empty() || !std::path::Path::new(&hnsw).exists() {
+        die("C14 needs the hnsw_bench build of the harness (MC_BIN_HNSW); run through ./check");
+    }
+    let sizes: Vec<usize> = tier.pick(vec![1000], vec![999, 1000, 1001]);
+    let tail = s(&["commit", "put:e", "del:0", "reopen"]);
+    for n in sizes {
+        for (label, exe) in [("default-build", None), ("hnsw-build", Some(hnsw.clone()))] {
+            if tier == Tier::Quick && label == "default-build" {
+                continue;
+            }
+            plans.push(HistPlan { label: format!("bulk-{n}-{label}"), prop: "C14", alphabet: tail.clone(), max_depth: tier.pick(1, 2), prefix: vec![format!("bulk:{n}"), "commit".into(), "put:e".into(), "commit".into(), "del:0".into(), "commit".into()], instant: false, worker_kind: "hist", extra: json!({}), keep: Some(c14_owns), exe, timeout_s: 600 });
+        }
+    }
+    let mut summary = Vec::new();
+    for p in &plans {
+        let st = explore(&mut report, p);
+        summary.push(json!({"plan": p.label, "depth": p.max_depth, "cases": st.cases, "redundant": st.redundant, "violating": st.violating}));
+    }
+    report.set("plans", json!(summary));
+    report.finish()
+}
+
+fn c08_owns(sig: &str) -> bool {
+    sig.starts_with("reads:") || sig.starts_with("frame-superseded-by") || sig.starts_with("frame-status") || sig.starts_with("panic:search") || sig.starts_with("panic:ask") || sig.starts_with("panic:timeline")
+}
+
+pub fn run_c08(tier: Tier, replay_path: Option<String>) -> i32 {
+    if let Some(p) = replay_path {
+        return replay(&p);
+    }
+    let mut report = Report::new(
+        "C08",
+        tier,
+        "exploration",
+        "every op sequence up to the depth bound over {put t (unique word per document), put e (with embedding), put T (chunked), update with new text, metadata-only update, update with a new embedding, delete, commit, close+open}, from a fresh file and after a commit; after every commit/open the read battery: search for every word ever stored (with and without the sketch pre-filter), ask(context_only, lexical), search_vec / vec_search_with_embedding / search_adaptive with each stored embedding, timeline, frame_by_uri for every uri; oracle: no hit, citation, fragment or timeline entry names an inactive frame, an un-chunked document's old unique word is found only in frames that still carry it, frame_by_uri returns the newest active version, the old version records its successor, unspecified fields are inherited; non-trivial = history with >= 1 delete or update; distinct = distinct histories",
+    );
+    let alphabet = s(&["put:t", "put:e", "put:T", "upd:0:new", "upd:0:meta", "upd:1:emb", "del:0", "del:1", "commit", "reopen"]);
+    let mk = |label: &str, alphabet: &Vec<String>, depth: usize, prefix: &[&str], instant: bool| HistPlan { label: label.into(), prop: "C08", alphabet: alphabet.clone(), max_depth: depth, prefix: s(prefix), instant, worker_kind: "hist", extra: json!({}), keep: Some(c08_owns), exe: None, timeout_s: 120 };
+    let plans = match tier {
+        Tier::Quick => vec![mk("after-commit", &alphabet, 2, &["put:t", "put:e", "put:t", "commit"], false), mk("after-commit-instant", &s(&["upd:0:new", "del:0", "commit", "reopen"]), 2, &["put:t", "put:e", "commit"], true)],
+        Tier::Thorough => vec![mk("fresh", &alphabet, 4, &[], false), mk("after-commit", &alphabet, 3, &["put:t", "put:e", "put:t", "commit"], false), mk("after-commit-instant", &alphabet, 3, &["put:t", "put:e", "commit"], true), mk("after-chunked", &alphabet, 2, &["put:T", "put:t", "commit"], false)],
     };
     let mut summary = Vec::new();
     for p in &plans {
